@@ -4,14 +4,14 @@ ENTRY = {
     "gen_items": [],
     "rule": "every statement runs in a child process of the harness (catch_unwind + panic hook with the innermost engine frame; parent sees abort "
             "signals/stack overflows; limit = 10 s of child CPU time per statement, 120 s wall backstop; 6 GB address-space cap; RAYON_NUM_THREADS=4); "
-            "streams per 20 cases: 7 grammar (type-blind SQL grammar over 5 small tables: all expression forms, ~330 function names with random arity, "
+            "streams per 20 cases: 3 utf8 (string functions drawn from the ENGINE'S function table - names read from /repo/src/planner/{binder,logical_expr}.rs on every run - LIKE, ||, CAST, comparisons, SUBSTRING/POSITION/TRIM, GROUP BY and joins over the multi-byte fixture table mb: 2-, 3-, 4-byte characters, combining marks, ZWJ sequence, lone ß, empty string x integers 0..6 and -1/7/8/100), 5 grammar (type-blind SQL grammar over 5 small tables: all expression forms, ~330 function names with random arity, "
             "joins, GROUP BY/ROLLUP/CUBE, windows, set ops, CTEs, VALUES, subqueries, LIMIT/OFFSET extremes), 2 wild (30% unknown/quoted/odd names), "
             "1 tame (supported core of the dialect, mostly executable: joins, aggregates, windows, set operations, subqueries, ~45 functions), 2 mutated (byte/token mutations of generated statements, lossy UTF-8), 1 stmt (90 templates: every statement kind, comments, empty, multi-statement), "
             "1 fnb (functions/operators at argument boundaries), 1 bytes (random bytes), 2 deep (31 nesting/size shapes: parentheses and subqueries up to and past the "
             "parser's recursion limit, AND/OR/+ chains up to 10 000 terms, 10 000-element IN lists, 5 000-digit and megabyte literals, 3 000 select items, 1 000 UNION branches, "
             "40-way joins, 300 chained CTEs, 20 ROLLUP keys), 1 spill-grammar + 2 spill (sort/top-k/aggregate/distinct/join/window shapes over 40 000 nullable rows under "
             "ExecutionContext::with_memory_limit(100_000)); every 40th case: optimizer fix-point driver vs its Lean model with scripted rules (converging, never converging, failing, "
-            "a rule named PackedJoinKeys). non-trivial = the statement got past the parser (or an optimizer run with more applications than rules); distinct by sha256 of the case",
+            "a rule named PackedJoinKeys). PLUS, on every run irrespective of the case count, the systematic block utf8-sys: every name of the engine's function table x 8 argument shapes over the columns of mb (~2 400 statements, all words x n = 0..6 per statement). About a third of the string literals of the other streams are multi-byte too. non-trivial = the statement got past the parser (or an optimizer run with more applications than rules); distinct by sha256 of the case",
     "trusted_base": COMMON_TB + [
         "PARTIAL by nature: panic-, stack- and hang-freedom of the ~70k unmodelled lines (sqlparser, binder, physical planner, operators, Arrow) is decided by the generated-SQL runs only",
         "modelled not verified: optimizer fix-point driver (IQE.Engine.OptDriver mirrors optimize_with_rules; rule bodies are parameters); Spec.eval / Engine.Filter.eval / Spec.run as written by their owners",
@@ -24,7 +24,7 @@ ENTRY = {
         "dev profile (overflow checks on), the same profile as the shipped target/debug binary; overflow panics listed as C29-F6/F8 wrap silently in release builds",
         "SQL text is valid UTF-8 (ExecutionContext::sql takes &str): arbitrary bytes are mapped through from_utf8_lossy",
     ],
-    "min_tags": {"stream:grammar": 1, "stream:wild": 1, "stream:mutated": 1, "stream:tame": 1, "stream:stmt": 1, "stream:deep": 1, "stream:spill": 1, "stream:fnb": 1, "stream:bytes": 1,
+    "min_tags": {"stream:grammar": 1, "stream:wild": 1, "stream:mutated": 1, "stream:tame": 1, "stream:utf8": 20, "stream:utf8-sys": 1500, "utf8": 1600, "stream:stmt": 1, "stream:deep": 1, "stream:spill": 1, "stream:fnb": 1, "stream:bytes": 1,
                  "stream:opt": 1, "outcome:ok": 1, "outcome:err": 1, "err:Parse": 1, "err:NotImplemented": 1},
     "explanation": "K = every statement ended in ok|err with no panic on any thread (and, for optimizer cases, model = real driver: same plan/failing rule and same number of rule applications); "
                    "O = the same predicate on the child's report (for optimizer cases: applications <= max_iterations*|loop rules|+|final rules|). Attribution to a listed finding is by crash-site + statement-shape signature "
